@@ -390,6 +390,7 @@ class QConn:
             explicit_len=True, trailing_zeros=0, w=None):
         """one datagram carrying `packets` coalesced 1-RTT packets... (only the last short packet may lack a
         length, so several short packets are expressed as several STREAM frames in one packet instead)"""
+        self._switch_tick(from_server)
         frames = other_before
         for i, (sid, off, data, fin) in enumerate(chunks):
             last = i == len(chunks) - 1 and not other_after
@@ -427,15 +428,33 @@ class QConn:
                 k += 1
         return n
 
-    def new_cid(self, from_server, cid_len=None):
-        """issue a connection ID and have the peer switch to it"""
+    def new_cid(self, from_server, cid_len=None, retire=0, lazy=0):
+        """issue a connection ID (Retire Prior To = `retire`) and have the peer switch to it — at once, or only after it
+        has sent `lazy` more datagrams with the old one (packets in flight when the frame arrived, RFC 9000 5.1.2)"""
         cid = self.rng.randbytes(cid_len if cid_len is not None else max(4, len(self.scid_s if from_server else self.scid_c)))
-        self.q_1rtt(from_server, f_new_cid(1, 0, cid, self.rng.randbytes(16)))
+        self.q_1rtt(from_server, f_new_cid(1, retire, cid, self.rng.randbytes(16)))
         self.flush(from_server)
-        if from_server:
+        self.pending_switch = [from_server, cid, lazy]
+        self._switch_tick(None)
+
+    def _switch_tick(self, sender_is_server):
+        """called before a datagram of `sender_is_server` is built (None: right after the frame was issued)"""
+        ps = getattr(self, "pending_switch", None)
+        if not ps:
+            return
+        issuer, cid, left = ps
+        if sender_is_server is not None and sender_is_server == issuer:
+            return                                  # only the peer's datagrams count
+        if left > 0 and sender_is_server is not None:
+            ps[2] -= 1
+            return
+        if left > 0:
+            return
+        if issuer:
             self.dcid_for_client = cid
         else:
             self.dcid_for_server = cid
+        self.pending_switch = None
 
 
 def random_other_frames(rng, conn, from_server):
@@ -478,6 +497,9 @@ def random_connection(rng, idx=0, v6=None, suite=None, features=None):
     f.setdefault("key_updates", rng.choice([0, 0, 1, 2, 3]))
     f.setdefault("new_cid", rng.random() < 0.3)
     f.setdefault("pn_big", rng.random() < 0.3)
+    # NEW_CONNECTION_ID: Retire Prior To, and how many more datagrams the peer sends with the old CID before it switches
+    f.setdefault("ncid_retire", rng.choice([0, 0, 1]))
+    f.setdefault("ncid_lazy", rng.choice([0, 0, 1, 2]))
     f.setdefault("v6", rng.random() < 0.3 if v6 is None else v6)
     f.setdefault("prefix_cid", rng.random() < 0.08 and not f["retry"])
     f.setdefault("long", False)
@@ -538,7 +560,7 @@ def random_connection(rng, idx=0, v6=None, suite=None, features=None):
             issuer = rng.randrange(2)
             # an endpoint that uses zero-length CIDs cannot issue new ones (RFC 9000 §5.1.1)
             if len(c.scid_s if issuer else c.scid_c) > 0:
-                c.new_cid(issuer)
+                c.new_cid(issuer, retire=f["ncid_retire"], lazy=f["ncid_lazy"])
         chunks = []
         for _ in range(rng.choice([0, 1, 1, 1, 2, 3])):
             sid = rng.choice([0, 4, 8, 3, 2]) if not d else rng.choice([0, 4, 1, 3, 7])
